@@ -697,7 +697,7 @@ theorem WInv.ev {st : Bool} {s : Sock} {sp : Spec} (h : WInv st s sp) (hc : sp.c
     (fun _ => Iff.rfl) (fun _ _ => ⟨rfl, rfl, rfl⟩)
 
 theorem winv_stepK_api {app : App} (hq : QuietApp app) (env : Env) {st : Bool} {s : Sock} {sp : Spec} (k : Nat)
-    (h : WInv st s sp) {op : ApiOp} (hop : respOp op = true) (hwf : wfOp op st = true) :
+    (h : WInv st s sp) {op : ApiOp} (hop : allowedEv (.api op) = true) (hwf : wfOp op st = true) :
     WInv (nextSt op st) (stepK env app (s, k) (.api op)).1 (Spec.step env.errPage sp op) := by
   by_cases hc : sp.closed = true
   · have e : Spec.step env.errPage sp op = sp := by simp [Spec.step, hc]
@@ -708,7 +708,18 @@ theorem winv_stepK_api {app : App} (hq : QuietApp app) (env : Env) {st : Bool} {
   · have hc : sp.closed = false := by simpa using hc
     have ho := h.opn hc
     rw [stepK_alive env app k _ ho.alive, step_api env app op (by exact ho.alive)]
-    exact winv_api_open hq env (h.ev hc k) hc hop hwf
+    rcases Bool.or_eq_true_iff.mp hop with hop | hop
+    · exact winv_api_open hq env (h.ev hc k) hc hop hwf
+    · -- a call that does not touch the response
+      have e : Spec.step env.errPage sp op = sp := by
+        cases op <;> simp only [passiveOp, Bool.false_eq_true] at hop <;> simp [Spec.step]
+      have en : nextSt op st = st := by
+        cases op <;> simp only [passiveOp, Bool.false_eq_true] at hop <;> rfl
+      have ho' := ho.ev k
+      obtain ⟨a1, a2, a3, a4, a5, a6⟩ := open_pstep ho' (api_passive env app hop ho'.rb ho'.dcF)
+      rw [e, en]
+      exact (h.ev hc k).neutral id (fun _ => a1) (fun x => by rw [hc] at x; cases x) a2
+        (fun _ => by rw [a6]) (fun _ _ => ⟨a3, a4, a5⟩)
 
 theorem winv_stepK_other {app : App} (hq : QuietApp app) (env : Env) {st : Bool} {s : Sock} {sp : Spec} (k : Nat)
     (h : WInv st s sp) {e : Event} (he : allowedEv e = true) (hne : ∀ op, e ≠ .api op) :
@@ -830,8 +841,12 @@ theorem run_new (env : Env) (app : App) (rest : List Event) :
       (rest.foldl (stepK env app) ({ ({} : Sock) with log := [Obs.ev 0], initPending := true }, 1)).1 := rfl
 
 /-- **C03**: for every environment, every application whose `bytesWritten` / `disconnected`
-    reactions make no call, and every history `new` followed by response-side calls,
-    acknowledgements and event-loop turns, the executable predicate holds on the model run. -/
+    reactions make no response-side call (`QuietApp`: they may read, query, record harmless notes;
+    reactions to request-side signals are arbitrary), and every history `new` followed by
+    response-side calls (`status/hdr/hdrs/wh/write/err/redir/json/close`, interleaved with reads
+    and queries if desired), acknowledgements and event-loop turns (`allowedEv`), the executable
+    predicate holds on the model run.  Unbounded in the history, the byte strings and the
+    environment; the documented preconditions are those of `wfOps` (inside `holds`). -/
 theorem holds_run (env : Env) (app : App) (hq : QuietApp app) (rest : List Event)
     (hr : ∀ e ∈ rest, allowedEv e = true) :
     holds env ⟨app, .new :: rest⟩ (Scenario.run env ⟨app, .new :: rest⟩).log = true := by
@@ -1122,8 +1137,14 @@ end runs
 
 /-! ### non-vacuity -/
 
-theorem quietApp_default : QuietApp {} := fun _ => ⟨rfl, rfl⟩
-theorem quietApp_script : QuietApp (Script.app {}) := fun _ => ⟨rfl, rfl⟩
+theorem quietApp_default : QuietApp {} := quietApp_of_nil fun _ => ⟨rfl, rfl⟩
+theorem quietApp_script : QuietApp (Script.app {}) := quietApp_of_nil fun _ => ⟨rfl, rfl⟩
+
+/-- for scripted applications the hypothesis on the application is decidable -/
+theorem quietApp_of_script (sc : Script)
+    (h : (sc.onBw.all passiveOp && sc.onDc.all passiveOp) = true) : QuietApp (Script.app sc) := by
+  simp only [Bool.and_eq_true, List.all_eq_true] at h
+  exact fun _ => ⟨h.1, h.2⟩
 
 def exEnv : Env := { url := fun _ => none, errPage := fun c r => intText c ++ [SP] ++ r }
 
@@ -1164,5 +1185,32 @@ example : holds exEnv ⟨{}, [.new, .api (.status 201 none), .api (.err 500 none
 example : isConv (.err 500 none) = true ∧
     wfOps (apiOps ⟨{}, [.api (.status 201 none)] ++ .api (.err 500 none) :: [.ackAll, .turn]⟩) false = true ∧
     (specOf exEnv [.api (.status 201 none)]).closed = false := by decide
+
+/-- a scripted application that reacts to `bytesWritten` with `bytesAvailable()` and to
+    `disconnected` with `readAll()` and a note (and would close on `headersParsed`), with reads
+    interleaved in the history: the hypotheses of `holds_run` are satisfied and `holds` is true -/
+def exScript : Script :=
+  { onHp := [.close], onBw := [.avail], onDc := [.readAll, .note (.misc 1 [])] }
+
+def exEvents2 : List Event :=
+  [ .api (.hdr (lit ['A']) (lit ['1']) false), .api (.read 3), .api (.hdr (lit ['a']) (lit ['2']) false),
+    .api (.write (lit ['x','y'])), .ackAll, .api .snap, .api (.write (lit ['!'])), .api .close,
+    .ackAll, .turn, .turn, .api (.write (lit ['z'])) ]
+
+example : (exScript.onBw.all passiveOp && exScript.onDc.all passiveOp) = true := by decide
+example : ∀ e ∈ exEvents2, allowedEv e = true := by decide
+example : wfOps (apiOps ⟨exScript.app, .new :: exEvents2⟩) false = true := by decide
+example : holds exEnv ⟨exScript.app, .new :: exEvents2⟩
+    (Scenario.run exEnv ⟨exScript.app, .new :: exEvents2⟩).log = true := by decide +kernel
+example : Obs.wire (Scenario.run exEnv ⟨exScript.app, .new :: exEvents2⟩).log =
+    lit ['H','T','T','P','/','1','.','0',' ','2','0','0',' ','O','K','\r','\n',
+         'A',':',' ','1',',',' ','2','\r','\n','\r','\n','x','y','!'] := by decide +kernel
+
+/-- the main theorem applies to that scenario -/
+example : holds exEnv ⟨exScript.app, .new :: exEvents2⟩
+    (Scenario.run exEnv ⟨exScript.app, .new :: exEvents2⟩).log = true :=
+  holds_run exEnv _ (quietApp_of_script exScript (by decide)) exEvents2 (by decide)
+example : holds exEnv ⟨{}, .new :: exEvents⟩ (Scenario.run exEnv ⟨{}, .new :: exEvents⟩).log = true :=
+  holds_run exEnv _ quietApp_default exEvents (by decide)
 
 end Qhttp.C03
